@@ -74,6 +74,9 @@ func c02(c *core.Ctx) {
 		if singleResponseProbes(c) < 2 {
 			c.Missing("client stream types with a single-response probe (in-process and HTTP)")
 		}
+		// unary HTTP: the reply body is decoded only after its read was found complete (obligations shared with
+		// C07/R3: a body cut short is a failed call, not a shorter response)
+		c07BufferProvenance(c, c.P.LibFuncs("httpgrpc"))
 		// unary in-process: success needs the one response (obligations shared with C08/R2)
 		for _, ct := range channelTypes(c.P, "inprocgrpc") {
 			if fn := declaredMethod(c.P, ct, "Invoke"); fn != nil {
@@ -86,6 +89,37 @@ func c02(c *core.Ctx) {
 	if c.Rule("R2", "a handler error is always put on the wire (error frame / status header / trailer fields), and OK is rewritten to Internal on both HTTP paths", 6) {
 		c02HandlerErrOnWire(c)
 		c02NoFrameDropped(c)
+		// the one exception ("except after a failed response write") is exactly that: the flag that withholds the trailer is
+		// set on EVERY failed frame write — not on a class of its errors
+		nWF := 0
+		for _, nt := range streamTypes(c.P, "ServerStream", "SendMsg") {
+			if pkgSuffixOf(nt) != "httpgrpc" {
+				continue
+			}
+			tn := nt.Obj().Name()
+			for _, fn := range methodFamily(c.P, nt, "SendMsg") {
+				for _, w := range core.CallsIn(fn, func(call *ssa.Call, ci core.CallInfo) bool { ok, _ := httpFrameWriteCall(call); return ok }) {
+					core.Instrs(fn, func(in ssa.Instruction) {
+						st, ok := in.(*ssa.Store)
+						if !ok || !core.Reachable(core.After(w), st) {
+							return
+						}
+						base, fld, isF := core.FieldOf(st.Addr)
+						if b, isC := core.ConstBool(st.Val); !isF || !isC || !b || core.NamedOf(base.Type()) != tn {
+							return
+						}
+						nWF++
+						exact := core.GuardedExactlyBy(st, func(f core.Fact) bool {
+							return f.Op == token.NEQ && core.IsNilConst(f.Y) && core.OriginIs(f.X, func(o ssa.Value) bool { return o == ssa.Value(w) })
+						})
+						c.Check(exact, core.FuncName(fn)+":"+fld+":set-on-every-failed-write", st.Pos(), "the write-failed flag is set on exactly the non-nil edge of the frame write's error", "the write-failed flag is not set on every failed frame write (it depends on more than 'err != nil'): after such a failure the stream goes on as if the message had been delivered, and the client is told the handler's final status over a reply that lacks a message")
+					})
+				}
+			}
+		}
+		if nWF == 0 {
+			c.Fail("httpgrpc:write-failed-flag", token.NoPos, "ANCHOR-MISSING: no write-failed flag set after the frame write in the HTTP server stream's SendMsg")
+		}
 		c.EndRule()
 	}
 	// ---------------------------------------------------------------- R5
@@ -262,6 +296,51 @@ func c02InprocRecheck(c *core.Ctx) {
 				c.Fail(key, sel.Pos(), "%s", bad)
 			} else {
 				c.Ok(key, sel.Pos(), "%d success-ish return(s) on the closed edge, each under ctx.Err() == nil checked after the receive", cnt)
+			}
+			// a receive helper that hands the frame to the stream's receive functions: the select takes either ready
+			// arm at random, so a receive issued after the context ended reports the context error only if the
+			// context is looked at again after a frame was taken
+			returnsFrame := false
+			for i := 0; i < fn.Signature.Results().Len(); i++ {
+				if core.NamedOf(fn.Signature.Results().At(i).Type()) == "frame" {
+					returnsFrame = true
+				}
+			}
+			if returnsFrame {
+				recheck := func(r ssa.Instruction) bool {
+					return core.GuardedBy(r, func(f core.Fact) bool {
+						if f.Op != token.EQL || !core.IsNilConst(f.Y) {
+							return false
+						}
+						call, _, ok := core.CallResult(f.X)
+						if !ok || !call.Call.IsInvoke() || call.Call.Method.Name() != "Err" {
+							return false
+						}
+						return (call.Call.Value == doneCtx || core.SameVal(call.Call.Value, doneCtx) || sameOrigins(call.Call.Value, doneCtx)) && core.Reachable(core.After(sel), call)
+					})
+				}
+				okFrame := true
+				var where token.Pos
+				for _, r := range core.Returns(fn) {
+					if !core.Reachable(core.After(sel), r) || core.GuardedBy(r, func(f core.Fact) bool { return f.Op == token.ILLEGAL && f.Neg && f.X == okV }) {
+						continue
+					}
+					ei := len(r.Results) - 1
+					if core.ClassifyErr(r.Results[ei], r) == core.ErrNonNil {
+						continue
+					}
+					// a return of the received frame with a nil error
+					if !core.GuardedBy(r, func(f core.Fact) bool { return f.Op == token.ILLEGAL && !f.Neg && f.X == okV }) {
+						continue
+					}
+					if !recheck(r) {
+						okFrame, where = false, r.Pos()
+					}
+				}
+				if !where.IsValid() {
+					where = sel.Pos()
+				}
+				c.Check(okFrame, core.FuncName(fn)+":recv-frame:context-rechecked", where, "a received frame is returned only under ctx.Err() == nil checked after the receive", "a received frame is returned without looking at the context again: when a frame is queued and the context has ended the select takes either arm, so a receive issued after cancellation can report success instead of Canceled / DeadlineExceeded")
 			}
 		})
 	}
